@@ -77,6 +77,7 @@ func (h HelperContext) BlockWith(hc hctx.Context) (string, error) {
 	cc := compiler{
 		ctx:     hc,
 		program: h.compiler.program,
+		source:  h.compiler.source,
 		exec:    h.compiler.exec,
 		depth:   h.depth + 1,
 	}
